@@ -162,7 +162,7 @@ def run(prop, tier, seed, replay=None):
         out.violation("%s/proof/%s" % (prop, proof["failing"]), "proof obligation no longer checks: %s" % proof["failing"],
                       {"theorem_or_file": proof["failing"], "log": proof["log"][-3000:]}, no_input=True)
     async_cov = None
-    if prop in ("C05", "C10") and not replay:
+    if prop in ("C05", "C10", "C16") and not replay:
         import check_async
         async_cov = check_async.run(prop, tier, seed, extra=out)
     cov = {
